@@ -442,28 +442,177 @@ Section WithPreparer.
   Qed.
 End WithPreparer.
 
-(* ---- finding: a re-prepare that overlaps an offer loses the offer --------------
-   x is cached at version "1"; its background re-preparer reads the entry and
-   awaits the preparer; meanwhile x is offered at version "2" and that offer
-   completes (it returns the new result and the cache holds version "2"); then the
-   re-preparer finishes and stores the entry it had read: the cache says version
-   "1" again, although "2" is the most recently offered version. *)
-Theorem reprepare_overwrites_newer_offer :
-  exists (prep : key -> json -> nat -> presult) (cls : nat) (name : string) (spec1 spec2 : json),
-    let k := (cls, name) in
-    let m v := Meta (Some name) (Some v) true in
-    let s1 := fst (step prep (Offer cls (m "1") spec1 None) init) in
-    exists read p started s2,
-      rp_begin prep k s1 = Some (read, p, started, s2) /\
-      let s3 := fst (step prep (Offer cls (m "2") spec2 None) s2) in
-      (exists v, snd (step prep (Offer cls (m "2") spec2 None) s2) = RValue v /\
-                 option_map e_version (lookup k (cache s3)) = Some "2") /\
-      let s4 := rp_end k read p started s3 in
-      option_map e_version (lookup k (cache s4)) = Some "1" /\
-      option_map e_spec (lookup k (cache s4)) = Some spec1.
-Proof.
-  exists (fun _ _ n => POk n false), 0, "x", (JStr "spec-v1"), (JStr "spec-v2").
-  cbv zeta. eexists _, _, _, _. split; [vm_compute; reflexivity|].
-  split; [exists (VOk 2); vm_compute; auto|]. vm_compute. auto.
-Qed.
+(* ---- a background re-prepare that overlaps offers / deletes of its resource ---- *)
 
+Section Reprepare.
+  Variable prep : key -> json -> nat -> presult.
+  Notation step := (step prep).
+  Notation run := (run prep).
+
+  (* every cached entry was stamped with a clock reading older than the clock *)
+  Definition stamped (s : state) : Prop :=
+    forall k e, lookup k (cache s) = Some e -> e_prepared_at e < clock s.
+
+  (* relative to an earlier state s0: an entry is either the one s0 had for that key, or newer than s0's clock *)
+  Definition since (s0 s : state) : Prop :=
+    clock s0 <= clock s /\
+    forall k e, lookup k (cache s) = Some e ->
+                lookup k (cache s0) = Some e \/ clock s0 <= e_prepared_at e.
+
+  Lemma lookup_set_cases k k' e m x :
+    lookup k' (set_entry k e m) = Some x -> (k' = k /\ x = e) \/ (k' <> k /\ lookup k' m = Some x).
+  Proof.
+    destruct (key_eqb k' k) eqn:E.
+    - apply key_eqb_eq in E. subst. rewrite lookup_set_same. intros H. injection H as <-. auto.
+    - apply key_eqb_neq in E. rewrite lookup_set_other by assumption. auto.
+  Qed.
+
+  Lemma lookup_del_cases k k' m x :
+    lookup k' (del_entry k m) = Some x -> k' <> k /\ lookup k' m = Some x.
+  Proof.
+    destruct (key_eqb k' k) eqn:E.
+    - apply key_eqb_eq in E. subst. rewrite lookup_del_same. discriminate.
+    - apply key_eqb_neq in E. rewrite lookup_del_other by assumption. auto.
+  Qed.
+
+  (* what one operation does to the clock and to the entries: the clock never goes back, and every entry
+     afterwards is an entry from before or is stamped with a reading of the clock taken during the operation *)
+  Lemma step_entries o s :
+    clock s <= clock (fst (step o s)) /\
+    forall k e, lookup k (cache (fst (step o s))) = Some e ->
+                lookup k (cache s) = Some e \/ (clock s <= e_prepared_at e /\ e_prepared_at e < clock (fst (step o s))).
+  Proof.
+    assert (Hp : forall k ver spec sys,
+              clock s <= clock (fst (prepare prep k ver spec sys s)) /\
+              forall k' e, lookup k' (cache (fst (prepare prep k ver spec sys s))) = Some e ->
+                lookup k' (cache s) = Some e \/
+                (clock s <= e_prepared_at e /\ e_prepared_at e < clock (fst (prepare prep k ver spec sys s)))).
+    { intros. unfold prepare. destruct (prep _ _ _); simpl; (split; [lia|]); intros k' e H; auto;
+        apply lookup_set_cases in H; destruct H as [[-> ->]|[_ H]]; auto; right; simpl; lia. }
+    assert (Hd : forall cls name ver,
+              clock s <= clock (fst (delete cls name ver s)) /\
+              forall k' e, lookup k' (cache (fst (delete cls name ver s))) = Some e -> lookup k' (cache s) = Some e).
+    { intros. unfold delete. destruct (lookup (cls, name) (cache s)) as [e0|]; [|auto].
+      destruct (nonempty ver) as [v|]; [destruct (String.eqb v _)|]; simpl; (split; [lia|]); auto;
+        intros k' e H; apply lookup_del_cases in H; tauto. }
+    destruct o as [cls m spec sys|cls name ver|cls m|cls name|cls name]; simpl; auto.
+    - unfold offer. destruct (extract_meta m) as [[name ver]|x]; [|auto].
+      destruct (lookup (cls, name) (cache s)) as [e0|]; [destruct (String.eqb _ _)|]; auto.
+    - destruct (Hd cls name ver) as [H1 H2]. split; [assumption|]. intros. left. eauto.
+    - unfold delete_resource. destruct (extract_meta m) as [[name ver]|x]; [|auto].
+      destruct (Hd cls name None) as [H1 H2]. split; [assumption|]. intros. left. eauto.
+  Qed.
+
+  Lemma step_stamped o s : stamped s -> stamped (fst (step o s)).
+  Proof.
+    intros H k e L. destruct (step_entries o s) as [Hc He].
+    destruct (He k e L) as [H1|[_ H1]]; [|assumption]. specialize (H k e H1). lia.
+  Qed.
+
+  Lemma run_stamped ops : forall s, stamped s -> stamped (run ops s).
+  Proof.
+    induction ops as [|o ops IH]; intros s H; simpl; [assumption|]. apply IH. now apply step_stamped.
+  Qed.
+
+  Lemma init_stamped : stamped init.
+  Proof. intros k e H. discriminate. Qed.
+
+  Lemma since_refl s : since s s.
+  Proof. split; [lia|]. auto. Qed.
+
+  Lemma step_since s0 o s : since s0 s -> since s0 (fst (step o s)).
+  Proof.
+    intros [Hc He]. destruct (step_entries o s) as [Hc' He']. split; [lia|].
+    intros k e L. destruct (He' k e L) as [H1|[H1 _]]; [auto|]. right. lia.
+  Qed.
+
+  Lemma run_since ops : forall s0 s, since s0 s -> since s0 (run ops s).
+  Proof.
+    induction ops as [|o ops IH]; intros s0 s H; simpl; [assumption|]. apply IH. now apply step_since.
+  Qed.
+
+  (* rp_begin does not touch the cache; it reads the clock once and calls the preparer once *)
+  Lemma rp_begin_spec k s read p started s1 :
+    rp_begin prep k s = Some (read, p, started, s1) ->
+    lookup k (cache s) = Some read /\ started = clock s /\ cache s1 = cache s /\
+    clock s1 = S (clock s) /\ preps s1 = k :: preps s.
+  Proof.
+    unfold rp_begin. destruct (lookup k (cache s)) as [e|]; [|discriminate].
+    intros H. injection H as <- <- <- <-. simpl. auto.
+  Qed.
+
+  (* THE REPAIRED BEHAVIOUR.  A re-prepare reads the entry of k in state s0; while its preparer is suspended
+     any sequence [ops] of offers / deletes / lookups runs.  If afterwards the entry of k is not exactly the
+     entry that was read — k was offered again (whatever the version) or deleted — finishing the re-prepare
+     leaves the cache and the preparer log exactly as they are: the newer offer is not overwritten and a deleted
+     entry is not resurrected. *)
+  Theorem reprepare_respects_newer_state k s0 read p started s1 ops :
+    stamped s0 ->
+    rp_begin prep k s0 = Some (read, p, started, s1) ->
+    let s2 := run ops s1 in
+    lookup k (cache s2) <> Some read ->
+    cache (rp_end k read p started s2) = cache s2 /\ preps (rp_end k read p started s2) = preps s2.
+  Proof.
+    intros St Hb s2 Hne. destruct (rp_begin_spec _ _ _ _ _ _ Hb) as (Lr & -> & Hc & Hk & _).
+    unfold rp_end. destruct (value_of_presult p); [|auto].
+    destruct (lookup k (cache s2)) as [cur|] eqn:L; [|auto].
+    assert (Hs : since s1 s2) by (apply run_since, since_refl).
+    destruct Hs as [_ Hs]. destruct (Hs k cur L) as [H|H].
+    - rewrite Hc, Lr in H. congruence.
+    - unfold same_object. specialize (St k read Lr).
+      assert (N : Nat.eqb (e_prepared_at cur) (e_prepared_at read) = false) by (apply Nat.eqb_neq; lia).
+      rewrite N. auto.
+  Qed.
+
+  (* ... in particular when a NEWER VERSION was offered meanwhile, or the entry was deleted *)
+  Corollary reprepare_keeps_newer_version k s0 read p started s1 ops e :
+    stamped s0 -> rp_begin prep k s0 = Some (read, p, started, s1) ->
+    lookup k (cache (run ops s1)) = Some e -> e_version e <> e_version read ->
+    lookup k (cache (rp_end k read p started (run ops s1))) = Some e.
+  Proof.
+    intros St Hb L Hv.
+    destruct (reprepare_respects_newer_state k s0 read p started s1 ops St Hb) as [H _].
+    - intros H. rewrite L in H. congruence.
+    - now rewrite H.
+  Qed.
+
+  Corollary reprepare_does_not_resurrect k s0 read p started s1 ops :
+    stamped s0 -> rp_begin prep k s0 = Some (read, p, started, s1) ->
+    lookup k (cache (run ops s1)) = None ->
+    lookup k (cache (rp_end k read p started (run ops s1))) = None.
+  Proof.
+    intros St Hb L.
+    destruct (reprepare_respects_newer_state k s0 read p started s1 ops St Hb) as [H _].
+    - rewrite L. discriminate.
+    - now rewrite H.
+  Qed.
+
+  (* and when nothing replaced the entry, the re-prepared result is stored under the SAME version and spec *)
+  Theorem reprepare_updates_same_version k s0 read p started s1 ops v :
+    rp_begin prep k s0 = Some (read, p, started, s1) ->
+    lookup k (cache (run ops s1)) = Some read -> value_of_presult p = Some v ->
+    lookup k (cache (rp_end k read p started (run ops s1))) =
+      Some (Entry (e_spec read) v (e_version read) started (e_sysdata read)).
+  Proof.
+    intros _ L Hv. unfold rp_end. rewrite Hv, L. unfold same_object. rewrite Nat.eqb_refl. simpl.
+    apply lookup_set_same.
+  Qed.
+End Reprepare.
+
+(* regression: the interleaving that used to lose the newer offer (commit 033ed5d repaired it): x cached at
+   "1"; the re-preparer reads it; x is offered at "2" and that offer completes; the re-preparer finishes — the
+   cache still says "2", built from the second spec *)
+Example reprepare_race_regression :
+  let prep := fun (_ : key) (_ : json) (n : nat) => POk n false in
+  let m v := Meta (Some "x") (Some v) true in
+  let s1 := fst (step prep (Offer 0 (m "1") (JStr "spec-v1") None) init) in
+  exists read p started s2,
+    rp_begin prep (0, "x") s1 = Some (read, p, started, s2) /\
+    let s3 := fst (step prep (Offer 0 (m "2") (JStr "spec-v2") None) s2) in
+    let s4 := rp_end (0, "x") read p started s3 in
+    option_map e_version (lookup (0, "x") (cache s4)) = Some "2" /\
+    option_map e_spec (lookup (0, "x") (cache s4)) = Some (JStr "spec-v2") /\
+    (* ... and a delete in between is not undone *)
+    let s3' := fst (step prep (Delete 0 "x" None) s2) in
+    lookup (0, "x") (cache (rp_end (0, "x") read p started s3')) = None.
+Proof. cbv zeta. eexists _, _, _, _. split; [vm_compute; reflexivity|]. vm_compute. auto. Qed.
